@@ -405,6 +405,7 @@ package mcap
     call parseSummarySection#1 label P
     ghostdef mark(r0) = at(P, len(it.topics) == 0 && it.start == 0 && it.end == 0) when r1 == nil && fresh(r0)
     ensures [cached-info-is-unfiltered] {C08 C02} infoInv(r) && (r1 == nil ==> ghost(mark, r0))
+    ensures [info-leaves-the-stream-where-it-was] {C02} r1 == nil && old(r.info) == nil ==> pos(r.rs) == old(pos(r.rs))
 @*/
 /*@ func (*Reader).Messages
     safety C10
